@@ -628,8 +628,7 @@ class SystemManager:
                 if s.priority > self.execution_queue[i].priority:
                     self.execution_queue.insert(i, s)
                     break
-            # Add to the end of queue if s has the lowest priority
-            if s not in self.execution_queue:
+            else:  # Add to the end of queue if s has the lowest priority
                 self.execution_queue.append(s)
 
     @deprecated(reason='For not meeting standard python naming conventions. Use "add_system" instead.')
@@ -653,7 +652,10 @@ class SystemManager:
         if s_id not in self.systems.keys():
             raise SystemNotFoundError(s_id)
         else:
-            self.execution_queue.remove(self.systems[s_id])
+            for i, queued in enumerate(self.execution_queue):
+                if queued is self.systems[s_id]:  # By identity: a System subclass may define its own __eq__
+                    del self.execution_queue[i]
+                    break
             del self.systems[s_id]
 
     @deprecated(reason='For not meeting standard python naming conventions. Use "remove_system" instead.')
